@@ -82,7 +82,7 @@ REVERTS = {
     "revert-9b0fffd": ["C16", "C01"], "revert-9d40251": ["C09"], "revert-3a105e2": ["C19"], "revert-f715ded": ["C19"], "revert-10ab5cf": ["C10"], "revert-390eafb": ["C16", "C03"],
     "revert-11c6dec": ["C14"], "revert-fe0f806": ["C14", "C02"], "revert-6d78151": ["C14"], "revert-7e7de5b": ["C07", "C03"], "revert-a340ec1": ["C17", "C19"], "revert-96b91e3": ["C05", "C01"],
     # revert-9b0fffd is rebased by hand onto cc39857 (same lines); the others are `git show -R <hash> -- yarl`
-    "revert-6290cfa": ["C05"], "revert-cc39857": ["C19"], "revert-9f3401e": ["C18"], "revert-9883bd1": ["C09"], "revert-0a68b8f": ["C17"], "revert-3a730b5": ["C18"], "revert-d267557": ["C19"],
+    "revert-6290cfa": ["C05"], "revert-cc39857": ["C19"], "revert-9f3401e": ["C18"], "revert-9883bd1": ["C09"], "revert-0a68b8f": ["C17"], "revert-3a730b5": ["C18"], "revert-d267557": ["C19"], "revert-3b79b85": ["C07"],
 }
 
 
